@@ -101,6 +101,8 @@ inductive Expr where
   | isFloat (e : Expr)                        -- `isinstance(e, float)`
   | isStrInst (e : Expr)                      -- `isinstance(e, str)`
   | slistc (l : List (List Nat))              -- a list literal of string constants
+  | strRepeat (s n : Expr)                    -- `s * n` / `n * s` for text `s` and an int `n`
+  | fmtArg (e : Expr)                         -- what `"{}".format(e)` substitutes: text as it is, an int in decimal
 deriving Repr, Inhabited
 
 inductive Stmt where
@@ -319,6 +321,15 @@ def sortByIndex (p : List (List Nat)) : List (List Nat) → Except Err (List (Na
     | none, _ => .error .valueError
     | _, .error e => .error e
 
+/-- decimal digits of a natural number as code points (`fuel` ≥ the number of digits) -/
+def natStrAux : Nat → Nat → List Nat
+  | 0, n => [48 + n % 10]
+  | f + 1, n => if n < 10 then [48 + n] else natStrAux f (n / 10) ++ [48 + n % 10]
+
+/-- `str(i)` of an int -/
+def intStr (i : Int) : List Nat :=
+  if i < 0 then 45 :: natStrAux i.natAbs i.natAbs else natStrAux i.natAbs i.natAbs
+
 def prodInts : List Int → Int
   | [] => 1
   | x :: xs => x * prodInts xs
@@ -518,6 +529,15 @@ def eval (env : Env) : Expr → Except Err Val
   | .isFloat e => do .ok (.bool (match (← eval env e) with | .float _ => true | _ => false))
   | .isStrInst e => do .ok (.bool (match (← eval env e) with | .str _ => true | _ => false))
   | .slistc l => .ok (match l with | [] => .ilist [] | _ => .slist l)
+  | .strRepeat s n => do
+      match (← eval env s), (← eval env n) with
+      | .str cs, .int k => .ok (.str (List.replicate k.toNat cs).flatten)
+      | _, _ => .error .unsupported
+  | .fmtArg e => do
+      match (← eval env e) with
+      | .str cs => .ok (.str cs)
+      | .int i => .ok (.str (intStr i))
+      | _ => .error .unsupported
 
 def exec (env : Env) : Stmt → Except Err Env
   | .skip => .ok env
